@@ -51,6 +51,7 @@ def run(ctx):
         prog = ctx.prog(cfg)
         mod = ctx.mod(cfg)
         _postguard(ctx, cfg, prog, mod)
+        _preguard(ctx, cfg, prog, mod)
         _wrapgate(ctx, cfg, prog, mod)
         _builder(ctx, cfg, prog, mod)
         _topokeep(ctx, cfg, prog, mod)
@@ -97,6 +98,50 @@ def _topokeep(ctx, cfg, prog, mod):
         ctx.ob('TOPOKEEP', 'replace|' + owner, cfg, ok, 'whole-receiver replacement in %s: %s' % (owner.rsplit('::', 1)[-1], d))
     ctx.floor('global_topology writers found (positive control: the setter is seen writing)', 2, writers, cfg)
     ctx.floor('whole-receiver replacement sites', 2, len(sites), cfg)
+
+
+VALIDATE_CFG = 'validate_configuration'
+
+
+def _preguard(ctx, cfg, prog, mod):
+    """PREGUARD: "all positive finite period vectors": a non-positive or non-finite period must be refused before it
+    is used as a modulus (rem_euclid by 0 is NaN, by a negative period leaves the box): every rem_euclid call is
+    dominated by an ordered comparison on the modulus value or by the success edge of validate_configuration."""
+    ctx.rule('PREGUARD', 'the modulus of every rem_euclid is checked (positive) before use')
+    lv = gate.Leaves(prog)
+    n = 0
+    for q, b in sorted(prog.bodies.items()):
+        for bb, t in b.calls():
+            if not _is_rem(t) or len(t.args) < 2:
+                continue
+            n += 1
+            mods = _copies_back(b, t.args[1])
+            # also the place the modulus was loaded from (e.g. self.domain[axis] read twice)
+            cmp_locals = set()
+            for blk in b.blocks:
+                for s_ in blk.stmts:
+                    if s_.kind == 'A' and s_.rv.k == 'bin' and s_.rv.raw.get('op') in ('Lt', 'Le', 'Gt', 'Ge') and s_.place.is_local() and \
+                            any(o.place is not None and o.place.is_local() and o.place.local in mods for o in s_.rv.ops):
+                        cmp_locals.add(s_.place.local)
+            guards = [blk.idx for blk in b.blocks if blk.term.k == 'switch' and blk.term.discr.place is not None and
+                      blk.term.discr.place.is_local() and blk.term.discr.place.local in cmp_locals]
+            ok = any(b.dominates(g, bb) for g in guards)
+            how = 'an ordered comparison on the modulus'
+            if not ok:
+                via = set()
+                for cb_, ct in b.calls():
+                    names = [x for x in (ct.resolved, ct.callee) if x]
+                    if any(x.rsplit('::', 1)[-1] == VALIDATE_CFG or (x in prog.bodies and any(
+                            y.rsplit('::', 1)[-1] == VALIDATE_CFG for y in lv.reach_set(x))) for x in names):
+                        via |= flow.call_flow(b, cb_).ok_edges
+                if via and bb not in flow.reach_edges(b, [0], avoid_edges=via):
+                    ok = True
+                    how = 'the success edge of validate_configuration'
+            ctx.ob('PREGUARD', b.root or q, cfg, ok,
+                   'rem_euclid at line %d is dominated by %s' % (t.line, how) if ok else
+                   'rem_euclid at line %d uses a modulus that no dominating test has checked to be positive: a zero / negative / '
+                   'non-finite period yields NaN or a value outside the box' % t.line, site='%s:%d' % (b.file, t.line))
+    ctx.floor('rem_euclid sites (PREGUARD)', 3, n, cfg)
 
 
 def _is_rem(t):
